@@ -18,7 +18,7 @@ EXPLANATION = (
     "positionally from self.weather_df) whole-row operations (dropna, drop_duplicates, duplicated) name the columns they look at - an unrelated "
     "extra column must not decide which days survive. C15.d (day binding): the frame read_weather_inputs returns is guarded by a raising test that "
     "compares its dates for equality with clock.time_span, and the frame is not re-defined after that comparison - the daily step and the "
-    "season-long degree-day sums address rows by day number, so a missing / duplicated / out-of-order record must not get through. C15.e: a bookkeeping column the model adds ('gdd', 'season') is written only into a frame the model built itself or restricted by name to the required columns - never into a frame that still carries the user's extra columns. C15.f: rows of the weather frame are never dropped or selected through the labels of the user's index (repeated labels), only by masks on columns, by position, or by labels of an index the function itself set from the Date column. C15.g: no function that receives the weather frame (the model's weather setter, initialisation, the weather reader, the degree-day preparation) writes into one of the five required columns from anything but that same column - in particular Date is never rebuilt from the index (expected count zero; the matcher is exercised on an embedded example with item store, attribute store, .loc store, assign and insert). C15.h (T-ARGS): once read from its column, a weather variable is handed on under its own name - no call of the package binds two positional arguments crosswise (temp_max / temp_min, rain / reference ET). C15.i: in the functions that receive the weather frame no column is chosen by a name pattern (filter(like/regex)), by dtype or by position (iloc[:, k], columns[k]) and nothing is aggregated across all columns (mean(axis=1)) - an unrelated extra column would join in (expected count zero, embedded positive example). C15.j: prepare_weather dates every record from its own Year / Month / Day fields (read by name, all rows), never from a generated calendar over the row count. NOT decided: numerical identity of the runs.")
+    "season-long degree-day sums address rows by day number, so a missing / duplicated / out-of-order record must not get through. C15.e: a bookkeeping column the model adds ('gdd', 'season') is written only into a frame the model built itself or restricted by name to the required columns - never into a frame that still carries the user's extra columns. C15.f: rows of the weather frame are never dropped or selected through the labels of the user's index (repeated labels), only by masks on columns, by position, or by labels of an index the function itself set from the Date column. C15.g: no function that receives the weather frame (the model's weather setter, initialisation, the weather reader, the degree-day preparation) writes into one of the five required columns from anything but that same column - in particular Date is never rebuilt from the index (expected count zero; the matcher is exercised on an embedded example with item store, attribute store, .loc store, assign and insert). C15.h (T-ARGS): once read from its column, a weather variable is handed on under its own name - no call of the package binds two positional arguments crosswise (temp_max / temp_min, rain / reference ET). C15.i: in the functions that receive the weather frame no column is chosen by a name pattern (filter(like/regex)), by dtype or by position (iloc[:, k], columns[k]) and nothing is aggregated across all columns (mean(axis=1)) - an unrelated extra column would join in (expected count zero, embedded positive example). C15.j: prepare_weather dates every record from its own Year / Month / Day fields (read by name, all rows), never from a generated calendar over the row count. C15.k: no function that receives the weather frame (the setter through which the checked table is stored back included) orders its rows by the index labels, by a column other than Date, or randomly (expected count zero, embedded positive example). NOT decided: numerical identity of the runs.")
 
 RECEIVER = {
     "MinTemp": re.compile(r"(^|_)(t?min|temp_min|tmin)", re.I),
@@ -122,6 +122,9 @@ def run(chk, prog, tier):
     # ---------------------------------------------------------------- C15.g
     from ._weather import required_column_stores
     chk.floor("C15.g", required_column_stores(chk, prog, "C15.g"), 3, "functions receiving the weather frame scanned for stores into required columns")
+    # ---------------------------------------------------------------- C15.k
+    from ._weather import row_reordering
+    chk.floor("C15.k", row_reordering(chk, prog, "C15.k"), 3, "functions receiving the weather frame scanned for label-dependent row orders")
     # ---------------------------------------------------------------- C15.j
     # the file reader dates each record by its OWN day / month / year fields: the value stored to the Date column of the frame it returns
     # reads the three columns by name and is not a generated calendar (date_range / arange over the row count) - a file with a gap, or
